@@ -424,9 +424,13 @@ def tr (q : Quirks) (env : Env) : PExp → M (Ty × Val)
               let (t, bits) := qMul q cl cr nl nr a b
               pure (.qint t, Val.ofBits bits)
             | "mod" =>
-              if !(isConstBits b && isPow2 (litVal b)) then
-                event "modNonPow2"
-                if !q.modNonPow2 then throw "mod: right operand is not a constant power of two"
+              if isConstBits b then
+                if !isPow2 (litVal b) then
+                  event "modNonPow2"
+                  if !q.modNonPow2 then throw "mod: literal right operand is not a power of two"
+              else
+                event "modVarDivisor"
+                if !q.modVarDivisor then throw "mod: right operand is not a literal"
               pure (if nl > nr then lt else rt, Val.ofBits (qMod q nr a b))
             | "xor" => pure (if nl > nr then lt else rt, Val.ofBits (bitwiseGeneric opXor a b))
             | "and" => pure (if nl > nr then lt else rt, Val.ofBits (bitwiseGeneric opAnd a b))
@@ -459,9 +463,12 @@ def trStmt (q : Quirks) (ret : Ty) (env : Env) : Stmt → M (List (String × BEx
       if (v.decompose target).map (·.1) != t.names target then
         event "tupleAssignFlat"
         if !q.tupleAssignFlat then
-          match nestAs t v.flatten with
-          | some (v', _) => v := v'
-          | none => throw "IndexError: pop from empty list"
+          match v with
+          | .list _ =>
+            match nestAs t v.flatten with
+            | some (v', _) => v := v'
+            | none => throw "IndexError: pop from empty list"
+          | .atom _ => pure ()
     | _ => pure ()
     let res := v.decompose target
     pure (res, env.bind ⟨target, t, res.map (·.1)⟩)
